@@ -25,6 +25,9 @@ import (
 	"github.com/ElrondNetwork/elrond-go/process/interceptors/processor"
 	"github.com/ElrondNetwork/elrond-go/storage"
 	"github.com/ElrondNetwork/elrond-go/storage/lrucache"
+	"github.com/ElrondNetwork/elrond-go/storage/lrucache/capacity"
+	"github.com/ElrondNetwork/elrond-go/storage/storageCacherAdapter"
+	trieNodeFactory "github.com/ElrondNetwork/elrond-go/storage/storageCacherAdapter/factory"
 
 	"verifsim/simkit"
 	"verifsim/triekit"
@@ -114,6 +117,8 @@ type run struct {
 	cancel     context.CancelFunc
 	ending     bool
 	rescue     bool
+	pool       bool
+	poolDisk   *simkit.SimDisk
 	poisoned   bool
 	gaveUp     bool
 	putErrBase int
@@ -423,7 +428,7 @@ func (r *run) addPeer(s *simkit.Step, unrelTrie data.Trie) {
 		seed: uint64(s.Int(2, 1)), subsetPm: int(s.Int(3, 500))}
 	var getter data.Trie
 	switch p.kind {
-	case peerFull:
+	case peerFull, peerSloppy:
 		getter = r.srcTrie
 	case peerUnrelated:
 		getter = unrelTrie
@@ -488,6 +493,22 @@ func (w *recCacher) Put(key []byte, value interface{}, size int) bool {
 	w.r.saved[string(key)] = true
 	w.r.mu.Unlock()
 	return ev
+}
+
+// Get counts entries the pool hands back from its persister (serialized bytes only).
+func (w *recCacher) Get(key []byte) (interface{}, bool) {
+	if w.r.pool {
+		if _, inMem := w.Cacher.Peek(key); !inMem {
+			v, ok := w.Cacher.Get(key)
+			if ok {
+				w.r.mu.Lock()
+				w.r.probe("pool_entry_read_back_from_persister")
+				w.r.mu.Unlock()
+			}
+			return v, ok
+		}
+	}
+	return w.Cacher.Get(key)
 }
 
 func execute(c *simkit.Ctx) (nontrivial bool) {
@@ -605,7 +626,7 @@ func (r *run) main() bool {
 			}
 		}
 	}
-	c.Eventf("destination preseeded=%d syncer=%d accounts=%v", r.preseeded, p.Knob("syncer", 2), r.accounts)
+	c.Eventf("destination preseeded=%d syncer=%d accounts=%v pool=%d", r.preseeded, p.Knob("syncer", 2), r.accounts, p.Knob("pool", 0))
 	r.destEnv = r.newEnv(r.destDisk, int(p.Knob("dest_cache", 100)))
 	if r.destEnv == nil {
 		return false
@@ -616,7 +637,24 @@ func (r *run) main() bool {
 	if capN < 1 {
 		capN = 1
 	}
-	if b := p.Knob("cacher_bytes", 0); b > 0 {
+	if p.Knob("pool", 0) == 1 {
+		// what the node uses (dataRetriever/factory.NewDataPoolFromConfig): capacity LRU + persister + trie node factory
+		pc := int(p.Knob("pool_cap", 5))
+		if pc < 1 {
+			pc = 1
+		}
+		pb := p.Knob("pool_bytes", 0)
+		if pb < 1 {
+			pb = 1 << 40
+		}
+		var clru storage.AdaptedSizedLRUCache
+		clru, err = capacity.NewCapacityLRU(pc, pb)
+		if err == nil {
+			r.poolDisk = simkit.NewSimDisk("pool", nil)
+			lru, err = storageCacherAdapter.NewStorageCacherAdapter(clru, r.poolDisk, trieNodeFactory.NewTrieNodeFactory(), triekit.Marshalizer)
+		}
+		r.pool = true
+	} else if b := p.Knob("cacher_bytes", 0); b > 0 {
 		lru, err = lrucache.NewCacheWithSizeInBytes(capN, b)
 	} else {
 		lru, err = lrucache.NewCache(capN)
